@@ -20,6 +20,27 @@ func init() { cmds["parse"] = cmdParse }
 
 var symBytes = map[string]string{"<0>": "\x00", "<L>": "é", "<N>": "٣", "<S>": "☃", "<B>": "\xff"}
 
+// other representatives of the symbol classes: the verdict must not depend on which member of a class is used
+var symAlt = []map[string]string{
+	{"<L>": "ǅ", "<N>": "½", "<S>": "\u00a0"},
+	{"<L>": "ª", "<N>": "Ⅷ", "<S>": "\u2028"},
+	{"<L>": "日", "<N>": "٣", "<S>": "\u3000"},
+}
+
+func bytesAlt(syms []string, alt map[string]string) []byte {
+	var b bytes.Buffer
+	for _, s := range syms {
+		if x, ok := alt[s]; ok {
+			b.WriteString(x)
+		} else if x, ok := symBytes[s]; ok {
+			b.WriteString(x)
+		} else {
+			b.WriteString(s)
+		}
+	}
+	return b.Bytes()
+}
+
 // bytesOf turns model symbols into the bytes handed to the parser.
 func bytesOf(syms []string) []byte {
 	var b bytes.Buffer
@@ -77,6 +98,15 @@ func symTree(e *expr.Expr) *expr.Expr {
 	}
 	c.E, c.L, c.R = symTree(e.E), symTree(e.L), symTree(e.R)
 	return &c
+}
+
+func hasClassSym(syms []string) bool {
+	for _, s := range syms {
+		if s == "<L>" || s == "<N>" || s == "<S>" {
+			return true
+		}
+	}
+	return false
 }
 
 var stepCount uint64
@@ -268,6 +298,17 @@ func cmdParse(args []string) error {
 			}
 			if got.Acc != "yes" || !expr.Same(got.Ast, want, true) {
 				add(&round, "print-then-parse round trip", want, got)
+			}
+		}
+		// the same input with other members of the symbol classes (another letter, number, non-ASCII blank ...)
+		if c.Obs.Acc != "?" && hasClassSym(c.Inp) {
+			for _, alt := range symAlt {
+				g2 := realParse(bytesAlt(c.Inp, alt), 0)
+				if g2.Acc != c.Obs.Acc {
+					add(&lang, "accept / reject with another member of a symbol class: "+string(bytesAlt(c.Inp, alt)), c.Obs.Acc, g2.Acc+" "+g2.Err)
+				} else if g2.Acc == "yes" && !expr.Same(g2.Ast, c.Obs.Ast, true) {
+					add(&lang, "syntax tree with another member of a symbol class: "+string(bytesAlt(c.Inp, alt)), c.Obs.Ast, g2.Ast)
+				}
 			}
 		}
 		if len(samples) < 6 && n%211 == 1 {
